@@ -51,6 +51,7 @@ def main(argv=None):
     ap.add_argument('--jobs', type=int, default=int(os.environ.get('VERIF_JOBS', '16')))
     ap.add_argument('--family', action='append', help='run only these families (debugging; evidence is marked partial)')
     ap.add_argument('--no-evidence', action='store_true')
+    ap.add_argument('--shard-replay', action='store_true', help='with --replay: re-run the whole shard that found the case')
     args = ap.parse_args(argv)
     _reexec_env()
     os.chdir(VERIF_DIR)
@@ -59,22 +60,42 @@ def main(argv=None):
         load_impl()
         mod = importlib.import_module(f'mc.props.{pid}')
         if args.replay:
-            return do_replay(mod, pid, args.replay)
+            return do_replay(mod, pid, args.replay, args.shard_replay)
         return do_check(mod, pid, args)
     except HarnessError as exc:
         print(f'HARNESS-ERROR property={pid} {exc}')
         return 2
 
 
-def do_replay(mod, pid, path):
+def do_replay(mod, pid, path, force_shard=False):
     with open(path, encoding='utf-8') as fh:
         rep = json.load(fh)
+    if force_shard or rep.get('history_dependent'):
+        return do_replay_shard(mod, pid, rep)
     out = mod.replay(rep['family'], rep['case'])
     print(json.dumps({'property': pid, 'family': rep['family'], 'case': rep['case'], 'result': out}, indent=1, sort_keys=True, default=repr))
     if out.get('differs'):
         print(f'REPLAY property={pid} still-fails=true')
         return 1
     print(f'REPLAY property={pid} still-fails=false')
+    return 0
+
+
+def do_replay_shard(mod, pid, rep):
+    """A violation that depends on the cases run before it (state leaking between calls of the code under test):
+    re-run the whole shard that found it, in this fresh process, in the same deterministic order."""
+    fams = mod.families(rep['tier'])
+    name, si = rep['shard']
+    fam = next(f for f in fams if f.name == name)
+    res = fam.func(fam.shards[si])
+    want = case_id([rep['family'], rep['case']])
+    hit = [v for v in res['violations'] + res['known_violations'] if case_id([v['family'], v['case']]) == want]
+    print(json.dumps({'property': pid, 'family': rep['family'], 'shard': rep['shard'], 'case': rep['case'],
+                      'violations_in_shard': res['nviol'] + res['nknown'], 'same_case_found': bool(hit)}, indent=1, sort_keys=True, default=repr))
+    if hit or res['nviol'] + res['nknown'] > 0:
+        print(f'REPLAY property={pid} still-fails=true (shard replay)')
+        return 1
+    print(f'REPLAY property={pid} still-fails=false (shard replay)')
     return 0
 
 
@@ -98,7 +119,9 @@ def do_check(mod, pid, args):
     ctx = multiprocessing.get_context('fork')
     jobs = max(1, min(args.jobs, len(order) or 1))
     shard_times = {}
-    with ctx.Pool(jobs) as pool:
+    # one fresh forked process per shard: state that the code under test leaks between calls (caches, a changed TZ)
+    # never crosses a shard boundary, so a shard's outcome does not depend on scheduling
+    with ctx.Pool(jobs, maxtasksperchild=1) as pool:
         it = pool.imap_unordered(_worker, order, chunksize=1)
         for _ in range(len(order)):
             remaining = cap_s - (time.time() - t0)
@@ -145,6 +168,8 @@ def do_check(mod, pid, args):
             capped = capped or res['capped']
             for k, v in res['extra'].items():
                 extra[k] = extra.get(k, 0) + v
+            for v in res['violations'] + res['known_violations']:
+                v['shard'] = [fam.name, si]
             all_viol.extend(res['violations'])
             all_known.extend(res['known_violations'])
             fsamples.extend(res['samples'])
@@ -185,9 +210,12 @@ def do_check(mod, pid, args):
         else:
             new_viol.append(v)
     replay_paths = []
-    for v in new_viol[:5]:
-        path = write_replay(pid, tier, v)
-        replay_paths.append(path)
+    per_family = {}
+    for v in new_viol:
+        if per_family.get(v['family'], 0) >= 2 or len(replay_paths) >= 10:
+            continue
+        per_family[v['family']] = per_family.get(v['family'], 0) + 1
+        replay_paths.append(write_replay(pid, tier, v))
 
     wall = time.time() - t0
     if not args.no_evidence:
@@ -203,11 +231,22 @@ def do_check(mod, pid, args):
               f'violations={rep["nviol"]} cpu_s={rep["wall_s_sum"]}{flag}')
     if new_viol:
         # Replay the first violation twice in fresh processes: the same case must fail both times.
-        stable = confirm(pid, replay_paths[0])
-        if not stable:
-            print(f'HARNESS-ERROR property={pid}: violation did not reproduce deterministically on replay: {replay_paths[0]}')
-            return 2
+        # Every reported violation is replayed twice in fresh processes first: alone, and if that does not reproduce it,
+        # within the deterministic shard that found it (history-dependent defects: state leaking between calls).
+        confirmed = []
         for path in replay_paths:
+            if confirm(pid, path):
+                confirmed.append(path)
+            elif confirm(pid, path, shard=True):
+                mark_history_dependent(path)
+                confirmed.append(path)
+                print(f'NOTE property={pid}: {os.path.basename(path)} depends on the cases run before it in its shard (state leaks between calls of the code under test); its replay re-runs the shard')
+            if len(confirmed) >= 5:
+                break
+        if not confirmed:
+            print(f'HARNESS-ERROR property={pid}: no recorded violation reproduced deterministically on replay: {replay_paths[0]}')
+            return 2
+        for path in confirmed:
             print(f'VIOLATION property={pid} replay={path}')
         print(f'{pid} {tier}: {len(new_viol)} violation(s) recorded ({total["nviol"]} counted) wall={wall:.1f}s')
         return 1
@@ -220,17 +259,28 @@ def write_replay(pid, tier, v):
     cid = case_id([v['family'], v['case']])
     path = os.path.join(VERIF_DIR, 'replays', f'{pid}-{cid}.json')
     doc = {'property': pid, 'tier': tier, 'family': v['family'], 'case': v['case'], 'expected': v['expected'],
-           'actual': v['actual'], 'first_difference': v['first_difference'], 'known_finding': v.get('known')}
+           'actual': v['actual'], 'first_difference': v['first_difference'], 'known_finding': v.get('known'),
+           'shard': v.get('shard'), 'history_dependent': False}
     with open(path, 'w', encoding='utf-8') as fh:
         json.dump(doc, fh, indent=1, sort_keys=True, default=repr)
         fh.write('\n')
     return path
 
 
-def confirm(pid, path):
+def mark_history_dependent(path):
+    with open(path, encoding='utf-8') as fh:
+        doc = json.load(fh)
+    doc['history_dependent'] = True
+    with open(path, 'w', encoding='utf-8') as fh:
+        json.dump(doc, fh, indent=1, sort_keys=True, default=repr)
+        fh.write('\n')
+
+
+def confirm(pid, path, shard=False):
     outs = []
     for _ in range(2):
-        proc = subprocess.run([sys.executable, '-m', 'mc.run', pid, '--replay', path], capture_output=True, text=True, cwd=VERIF_DIR, check=False)
+        cmd = [sys.executable, '-m', 'mc.run', pid, '--replay', path] + (['--shard-replay'] if shard else [])
+        proc = subprocess.run(cmd, capture_output=True, text=True, cwd=VERIF_DIR, check=False)
         outs.append((proc.returncode, proc.stdout))
     return outs[0] == outs[1] and outs[0][0] == 1
 
